@@ -512,6 +512,16 @@ class Escape(object):
         func, ctx = env['func'], env['ctx']
         out = {}
         self.call_sites += 1
+        # str(x) / repr(x) / "...".format(x): the __str__ of a repository class runs right here (not lazily as in log.debug("%s", x))
+        shown = []
+        if isinstance(call.func, ast.Name) and call.func.id in ('str', 'repr') and len(call.args) == 1:
+            shown = [call.args[0]]
+        elif isinstance(call.func, ast.Attribute) and call.func.attr == 'format' and isinstance(call.func.value, ast.Constant) \
+                and isinstance(call.func.value.value, str):
+            shown = list(call.args) + [k.value for k in call.keywords]
+        for x in shown:
+            if isinstance(x, (ast.Name, ast.Attribute)):
+                self._merge(out, self._dunder(x, '__str__', call, env))
         targets = self.r.callees(func, call, ctx, record=False)
         fr = None
         if not targets:
